@@ -83,11 +83,10 @@ def step (t : List String) : String :=
   | ["cellsNd", axes, o] =>
     match parseListListWith? parseRat? axes, parseNat? o with
     | some axes, some o =>
-      let n0 := len0 axes
       showListList showRat (axes.map (fun ax => (List.range ax.length).map (cellLo amid ax))) ++ " " ++
-        showListList showRat (axes.map (fun ax => (List.range ax.length).map (cellHiN amid n0 ax))) ++ " " ++
+        showListList showRat (axes.map (fun ax => (List.range ax.length).map (cellHi amid ax))) ++ " " ++
         showRatList (axes.map (fun ax => hLeft amid ax o)) ++ " " ++
-        showRatList (axes.map (fun ax => hRight amid n0 ax o))
+        showRatList (axes.map (fun ax => hRight amid ax.length ax o))
     | _, _ => "bad-op"
   | ["queriesNd", axes, o] =>
     match parseListListWith? parseRat? axes, parseNat? o with
